@@ -78,9 +78,10 @@ def judge(c, rec, Mismatch):
         # segments shorter than a centimetre the straight line IS the geodesic and every
         # measured length carries that quantisation noise
         qtol = 0.0
+        if seg_len > 0.0:
+            qtol = min(0.45, 8 * 3e-9 / seg_len)       # negligible beyond a few metres
         if 0.0 < seg_len < 1e-2:
             rho_star = 1.0
-            qtol = min(0.45, 8 * 3e-9 / seg_len)
         # a crossing that floating point cannot place better than a fraction eps of the
         # segment (segment nearly parallel to the grid line it crosses) may be put just
         # outside the segment: at most 2 eps of the length is then covered twice
@@ -121,7 +122,7 @@ def judge(c, rec, Mismatch):
                                       'ratio': got / v if v else None, **det})
         if zero:
             rec.cls('segment:zero-length')
-        if qtol and len(pcs) >= 2:
+        if 0.0 < seg_len < 1e-2 and len(pcs) >= 2:
             rec.cls('segment:shorter-than-1mm-across-a-grid-line' if seg_len < 1e-3
                     else 'segment:shorter-than-1cm-across-a-grid-line')
             if seg_len < 1e-8:
